@@ -75,6 +75,7 @@ fn main() {
             "C04" => netrun::worker(prop, t, shard, n, checks::c04::cases, checks::c04::run_case),
             "C17" => netrun::worker(prop, t, shard, n, checks::c17::wire_cases, checks::c17::wire_run_case),
             "C12" => netrun::worker(prop, t, shard, n, checks::c12::wire_cases, checks::c12::wire_run_case),
+            "C13" => netrun::worker(prop, t, shard, n, checks::c13wire::cases, checks::c13wire::run_case),
             _ => std::process::exit(2),
         }
     }
